@@ -625,6 +625,7 @@ impl Model {
             Op::ChmodLayer { layer, .. } => self.dir_is_real_dir(*layer),
             Op::ChmodToml { layer, .. } => self.snap.get(&self.ltoml(*layer)).is_some_and(Node::is_file),
             Op::RewriteSource { idx, .. } => self.source(*idx).is_some(),
+            Op::CorruptToml { layer } => self.snap.get(&self.ltoml(*layer)).is_some_and(Node::is_file),
             Op::SbomLink { layer, format, .. } => {
                 *format < 3
                     && self.dir_is_real_dir(*layer)
@@ -911,6 +912,11 @@ impl Model {
                 if let Some(Node::File { data, .. }) = self.snap.get(&t).cloned() {
                     self.snap.insert(t, Node::File { data, mode: *mode });
                 }
+                Expectation::simple(ExpResult::NoCall)
+            }
+            Op::CorruptToml { layer } => {
+                let t = self.ltoml(*layer);
+                self.snap.insert(t, Node::file(b"[metadata]\nversion = \"trunca".to_vec()));
                 Expectation::simple(ExpResult::NoCall)
             }
             Op::RewriteSource { idx, data } => {
